@@ -619,8 +619,8 @@ class BlockGen:
     lbl = s.label()
     if st is not None:
       srcs = [e for e, t in s.struct_sources if t == st]
-      if srcs and rng.random() < 0.8 and not s.ff:
-        s.features.add('struct-copy'); return ('assign', lbl, ('lsig', si, p), rng.choice(srcs), True)
+      if srcs and rng.random() < 0.8 and (not s.ff or p == ()):      # <<= of a whole bitstruct register is modelled too
+        s.features.add('struct-copy' + ('-ff' if s.ff else '')); return ('assign', lbl, ('lsig', si, p), rng.choice(srcs), not s.ff)
       # otherwise assign one of its leaves
       leaves = [(q, qw) for q, ns, qw, l, qst in s.D.paths(si) if qst is None and q[:len(p)] == p]
       p, w = rng.choice(leaves); s.features.add('field-write')
@@ -1243,7 +1243,7 @@ def main(ctx):
   ctx.trusted += ['harness/c10.py prints the same block as Python source and as a Coq term (cross-checked on every block: the number and order of RTLIR nodes of the real tree must match the term)',
                   'Bits/BitsSpec.v and Bits/Helpers.v as the meaning of Bits operators (proved equal to the generated model of PythonBits.py in C04/C05)']
   ctx.assumptions += [
-    'language modelled: signals of Bits / nested bitstruct type, int literals, BitsN(k), closure ints, + - * & | ^ << >>, comparisons, ~, slices (constant or x:x+k), bit index, concat, zext/sext/trunc (int width form), reduce_*, BitsN(e), IfExp, temporaries, constant-bounded for loops, @= / <<= (whole vector signals), if/else. Not modelled in Coq: / % ** unary -, signal lists, signal-indexed constant lists and their fields, closure Bits variables, struct instantiation, struct<->vector assignment, interfaces, sub-components, negative literals; blocks of the constants section that use them are evaluated against the property on the real observations only (coverage.unmodelled_blocks_property_evaluated).',
+    'language modelled: signals of Bits / nested bitstruct type, int literals, BitsN(k), closure ints, + - * & | ^ << >>, comparisons, ~, slices (constant or x:x+k), bit index, concat, zext/sext/trunc (int width form), reduce_*, BitsN(e), IfExp, temporaries, constant-bounded for loops, @= / <<= (whole vector or bitstruct signals), if/else. Not modelled in Coq: / % ** unary -, signal lists, signal-indexed constant lists and their fields, closure Bits variables, struct instantiation, struct<->vector assignment, interfaces, sub-components, negative literals; blocks of the constants section that use them are evaluated against the property on the real observations only (coverage.unmodelled_blocks_property_evaluated).',
     'generated blocks read only InPorts/temporaries and write only OutPorts/Wires (no aliasing between a temporary and a signal written later)',
     'tc_sound is proved for `tc strict` = the model of the code plus checks S1..S13 (Typing.v); tc_mono proves strict is a restriction of impl; for the code as it is the statement is false (machine-checked counterexamples; the harness finds them on the real code)',
     'soundness is proved for expressions, sub-expressions and single assignment statements under any well-typed environment; not for whole blocks with if/for (those are only compared with the real simulator)',
